@@ -250,6 +250,14 @@ EGLPNUM_TYPENAME_QSLIB_INTERFACE int EGLPNUM_TYPENAME_QSopt_dual (
 	{
 		rval = opt_work (p, status, 1);
 		CHECKRVALG (rval, CLEANUP);
+		if (p->qstatus == QS_LP_INFEASIBLE && p->lp->final_phase == DUAL_PHASEI)
+		{
+			/* phase I of the dual simplex only shows that the dual is infeasible: the
+			 * problem is infeasible or unbounded, the primal simplex decides which
+			 * (QSexact_solver does the same after a floating point dual solve) */
+			rval = opt_work (p, status, 0);
+			CHECKRVALG (rval, CLEANUP);
+		}
 	}
 	else
 	{
